@@ -592,6 +592,7 @@ class Emitter:
         self.depth = 0
         self.inputs = set()
         self.reads_as_inputs = False
+        self.used = []                # the functions whose bodies were inlined into this translation (for the inventory)
         self.vec_index = False        # `a[i]` indexes a Vec / VecDeque (EAt) rather than a fixed array of MaybeUninit slots (EIndex)
         self.t_default = None         # what `T::default()` is for the instantiation of a generic impl that is being translated
         self.ext_fields = {}          # field of self holding an object of a generic type (an inner getter / settable): field -> payload kind
@@ -770,6 +771,7 @@ class Emitter:
 
     def inline_pure(self, recv, key_f, args):
         key, f = key_f
+        self.used.append(f)
         if self.depth > 6: raise ParseError("inlining too deep")
         self.depth += 1
         body = parse_fn(f["toks"])
@@ -780,6 +782,7 @@ class Emitter:
         sub.tmp = self.tmp + 100 * self.depth; sub.depth = self.depth
         inner = "(ECatch %s)" % sub.expr(body)
         self.inputs |= sub.inputs
+        self.used += sub.used
         for pname, tname in reversed(list(zip(f["params"], tmps))):
             inner = "(ELet (PVar %s) (EVar %s) %s)" % (qs(pname), qs(tname), inner)
         inner = "(ELet (PVar %s) (EVar %s) %s)" % (qs("self"), qs(r), inner)
@@ -792,6 +795,7 @@ class Emitter:
     def inline_mut(self, recv, key_f, args):
         """a &mut self method called on self or on a local: the body with `self` replaced by the receiver"""
         key, f = key_f
+        self.used.append(f)
         if self.depth > 6: raise ParseError("inlining too deep")
         self.depth += 1
         body = self.subst_self(parse_fn(f["toks"]), recv)
@@ -839,6 +843,7 @@ class Emitter:
                 raise           # an accessor returning a reference must be resolved: a copy would lose writes through it
             return None
         body = parse_fn(kf[1]["toks"])
+        self.used.append(kf[1])
         if body[1] or body[2] is None or body[2][0] != "unary" or body[2][1] != "&":
             return None
         x = body[2][2]
@@ -879,6 +884,7 @@ class Emitter:
             if path == ["None"]: return "ENone"
             if path == ["Error", "FromNone"]: return "EErrFromNone"
             if len(path) == 2 and path[0] == "PositionDerivative": return "(ELit (VPD %s))" % PD[path[1]]
+            if path == ["PhantomData"]: return "EUnit"
             if len(path) == 2 and path[0] in self.enums: return "(EVariant %s)" % qs("::".join(path))
             if len(path) == 1:
                 n = path[0]
@@ -971,6 +977,21 @@ class Emitter:
                 if path == ["Command", "new"] and len(args) == 2 and args[1][0] == "mcall" and args[1][2] == "into" and not args[1][3]:
                     # Command::new(kind, value: f32): the `.into()` of the second argument is f32::from(Quantity)
                     return "(EOp 31 [%s; (EOp 23 [%s])])" % (self.expr(args[0]), self.expr(args[1][1]))
+                if len(path) == 2 and tuple(path) not in CTOR_OPS and (path[0], path[1]) in self.fns and len(self.fns[(path[0], path[1])]) == 1 \
+                        and not self.fns[(path[0], path[1])][0].get("has_self") and path[0] in ("SettableData",):
+                    # an associated function of the crate without a receiver (a constructor): its translated body, parameters bound
+                    f = self.fns[(path[0], path[1])][0]
+                    self.used.append(f)
+                    body = parse_fn(f["toks"])
+                    sub = Emitter(self.fns, self.enums, self.consts, path[0])
+                    sub.tmp = self.tmp + 100 * (self.depth + 1); sub.depth = self.depth + 1
+                    inner = "(ECatch %s)" % sub.expr(body)
+                    tmps = [self.fresh("a") for _ in args]
+                    for pname, tname in reversed(list(zip(f["params"], tmps))):
+                        inner = "(ELet (PVar %s) (EVar %s) %s)" % (qs(pname), qs(tname), inner)
+                    for a, tname in reversed(list(zip(args, tmps))):
+                        inner = "(ELet (PVar %s) %s %s)" % (qs(tname), self.expr(a), inner)
+                    return inner
                 if len(path) == 2 and tuple(path) in CTOR_OPS:
                     return "(EOp %d %s)" % (CTOR_OPS[tuple(path)], self.lst([self.expr(a) for a in args]))
             raise ParseError("call of %r" % (fn,))
